@@ -46,7 +46,7 @@ def run(ctx):
     q = ctx.quick
     ctx.mc('MC_LSM', constants={'LISTS': '"quick"'}, coverage=False, timeout=3000)
     if not q:
-        ctx.mc('MC_LSM', constants={'LISTS': '"all"'}, coverage=False, timeout=5000)
+        ctx.mc('MC_LSM', constants={'LISTS': '"wide"'}, coverage=False, timeout=5000)
     n = 5000 if q else 120000
     cfgs = [('v6', dict(arch_version=6)), ('v7', dict(arch_version=7)),
             ('v6hi', dict(arch_version=6, memory_list=HI_MEM)), ('v7hi', dict(arch_version=7, memory_list=HI_MEM))]
@@ -58,7 +58,7 @@ def run(ctx):
     F.run_family(ctx, 'lsm', n, {'endian': True, 'align_ctl': True, 'data_ptrs': True, 'hi': True}, F.exact_filter,
                  configs=cfgs, extra_groups=extra, tags_of=tags)
     ctx.extra['rule'] = ('MC_LSM: lists x LDM/STM x IA/IB/DA/DB x W x base placement incl. wrap, PUSH;POP identity (quick: '
-                         'structured lists, thorough: all 2^16); conformance: random and structured register lists for '
+                         'structured lists, thorough: + every 29th of the 2^16 lists and all lists with <= 2 or >= 15 registers; LISTS = "all" exists but takes hours); conformance: random and structured register lists for '
                          'ARM LDM/STM (4 modes), 16-bit PUSH/POP/LDM/STM, 32-bit LDM/STM, PUSH;POP programs')
 
 
